@@ -40,7 +40,7 @@ ASSUMPTIONS = [
     "kind x: equality of opaque values (paths, registered-type instances) is equality of (type name, repr / relative -> absolute path)",
 ]
 EXHAUSTIVE = {"quick": False, "thorough": False}
-FINDING_CLASSES = {1: "union-reselects-member", 2: "union-reselects-member"}
+FINDING_CLASSES = {1: "union-reselects-member", 2: "union-reselects-member", 3: "union-dump-wrong-member", 4: "set-dump-order"}
 
 # ---------------------------------------------------------------------------------------------------------------------
 # tagged values / types
@@ -78,6 +78,21 @@ def SET(xs):
 
 def D(kvs):
     return ["dict", [list(kv) for kv in kvs]]
+
+
+def O(kind, text):
+    """a Python instance of a registered type (object channel only)"""
+    return ["obj", kind, text]
+
+
+def has_obj(v):
+    if v[0] == "obj":
+        return True
+    if v[0] in ("list", "tuple", "set"):
+        return any(has_obj(x) for x in v[1])
+    if v[0] == "dict":
+        return any(has_obj(b) for _, b in v[1])
+    return False
 
 
 ENUMS = [("Color", ["red", "green", "blue"]), ("Sz", ["s", "m", "true"])]
@@ -357,10 +372,16 @@ X_LEAVES = [
     (["path", "fr"], [S("f1.txt"), S("dir1/f3.txt"), S("missing.txt"), S("f2.yaml")]),
     (["path", "dw"], [S("dir1"), S(".")]),
     (["path", "fc"], [S("new.txt"), S("dir1/new.txt"), S("f1.txt")]),
-    (["pathlib"], [S("x/y"), S("f1.txt"), S("1")]),
-    (["complex"], [S("(1+2j)"), S("1"), S("2.5"), S("1j"), I(3), F(2.5), B(True), S("false")]),
-    (["timedelta"], [S("1:00:00"), S("2 days, 0:00:00"), S("0:00:05")]),
-    (["range"], [S("range(1, 5)"), S("range(0, 10, 2)")]),
+    (["pathlib"], [S("x/y"), S("f1.txt"), S("1"), O("pathlib", "a/b.txt")]),
+    (["complex"], [S("(1+2j)"), S("1"), S("2.5"), S("1j"), I(3), F(2.5), B(True), S("false"), O("complex", "(3-4j)")]),
+    (["timedelta"], [S("1:00:00"), S("2 days, 0:00:00"), S("0:00:05"), S("24:00:00"), S("30:00:00"), S("26:10:00"), S("1 day, 0:01:00"),
+                     S("48:00:00"), S("100:00:00"), S("-1 day, 23:00:00"), O("timedelta", "86460"), O("timedelta", "3600"),
+                     O("timedelta", "-90000"), O("timedelta", "172800")]),
+    (["range"], [S("range(1, 5)"), S("range(0, 10, 2)"), S("range(5)"), O("range", "1,9,3")]),
+    (["decimal"], [S("0.1"), S("1.50"), S("1e3"), S("-7"), O("decimal", "0.1"), O("decimal", "12345678901234567890.123456789")]),
+    (["uuid"], [S("12345678-1234-5678-1234-567812345678"), O("uuid", "12345678123456781234567812345678")]),
+    (["enum", "Color", ["red", "green", "blue"]], [S("red"), ["enum", "Color", "green"]]),
+    (["enum", "Sz", ["s", "m", "true"]], [S("true"), S("m"), ["enum", "Sz", "true"]]),
     (["posint"], [S("3"), I(3), S("0"), F(1.0), B(True), S("0x10")]),
     (["unit"], [S("0.5"), I(1), I(0), S("1"), F(0.25)]),
     (["nnfloat"], [S("2"), I(2), F(0.0), S("1e3")]),
@@ -372,7 +393,98 @@ X_LEAVES = [
 ]
 
 
+# ---- parsers with several options whose names are prefix-related, subclass-typed options with defaults ---------------
+FAMILIES = {
+    "Net": {"Net": {"width": "int"}, "ConvNet": {"kernel": "int", "width": "int"},
+            "MlpNet": {"hidden": "int", "dropout": "float", "width": "int"}},
+    "Opt": {"Opt": {"lr": "float"}, "Sgd": {"momentum": "float", "lr": "float"}, "Adam": {"eps": "float", "lr": "float"}},
+}
+NAMEPOOLS = [["model", "model_ema"], ["model", "model_ema", "mod"], ["opt", "optim"], ["m", "model"], ["k", "k2", "k2b"],
+             ["net", "network"], ["a", "ab", "abc"]]
+
+
+def param_value(rng, kind):
+    return I(rng.choice([1, 2, 4, 5, 16, 32])) if kind == "int" else F(rng.choice([0.5, 0.25, 0.9, 2.0]))
+
+
+def gen_x_multi(rng):
+    names = list(rng.choice(NAMEPOOLS))
+    if rng.random() < 0.3:
+        rng.shuffle(names)
+    if len(names) > 2 and rng.random() < 0.5:
+        names = names[:2]
+    base = rng.choice(sorted(FAMILIES))
+    fam = FAMILIES[base]
+    decls, settings = [], []          # settings: (name, kind, payload)
+    for name in names:
+        r = rng.random()
+        if r < 0.75:
+            dcls = rng.choice(sorted(fam)) if rng.random() < 0.8 else None
+            dflt = NONE
+            if dcls:
+                ps = [q for q in sorted(fam[dcls]) if rng.random() < 0.6]
+                dflt = ["lazy", dcls, [[q, param_value(rng, fam[dcls][q])] for q in ps]]
+            decls.append({"key": name, "ty": ["sub", base], "default": dflt})
+            if rng.random() < 0.75:
+                switch = dcls is None or rng.random() < 0.6
+                cls = rng.choice(sorted(fam)) if switch else dcls
+                ps = [q for q in sorted(fam[cls]) if rng.random() < 0.4]
+                settings.append((name, "sub", (cls if switch else None, [[q, param_value(rng, fam[cls][q])] for q in ps])))
+        else:
+            leaf, vals = rng.choice([lv for lv in X_LEAVES if lv[0][0] not in ("data", "sub")] + [(INT, [S("3"), I(4)]), (STR, [S("abc")])])
+            decls.append({"key": name, "ty": leaf, "default": NONE})
+            if rng.random() < 0.6:
+                settings.append((name, "leaf", rng.choice(vals)))
+    if rng.random() < 0.4:
+        decls.append({"key": "epochs", "ty": INT, "default": I(1)})
+    ch = rng.choice(["args", "args", "object", "string"])
+    if any(kind == "leaf" and has_obj(v) for _, kind, v in settings):
+        ch = "object"
+    case = {"kind": "x", "decls": decls, "channel": ch}
+    if ch == "args":
+        argv = []
+        for name, kind, pl in settings:
+            if kind == "leaf":
+                argv.append("--%s=%s" % (name, pl[1] if pl[0] == "str" else render(pl)))
+                continue
+            cls, ps = pl
+            style = rng.randrange(4)
+            if cls and style == 0:
+                spec = {"class_path": cls}
+                if ps:
+                    spec["init_args"] = {q: json.loads(render(v)) for q, v in ps}
+                argv.append("--%s=%s" % (name, json.dumps(spec)))
+                continue
+            if cls:
+                argv.append(("--%s=%s" if style != 1 else "--%s.class_path=%s") % (name, cls if rng.random() < 0.7 else "c10_classes." + cls))
+            for q, v in ps:
+                argv.append(("--%s.%s=%s" if rng.random() < 0.6 else "--%s.init_args.%s=%s") % (name, q, render(v)))
+        case["input"] = argv
+    else:
+        kvs = []
+        for name, kind, pl in settings:
+            if kind == "leaf":
+                kvs.append((S(name), pl))
+                continue
+            cls, ps = pl
+            spec = []
+            if cls:
+                spec.append((S("class_path"), S(cls if rng.random() < 0.6 else "c10_classes." + cls)))
+            if ps:
+                spec.append((S("init_args"), D([(S(q), v) for q, v in ps])))
+            if spec:
+                kvs.append((S(name), D(spec)))
+        if ch == "object":
+            case["input"] = D(kvs)
+        else:
+            case["input"] = "".join("%s: %s\n" % (k[1], json.dumps(v[1]) if v[0] == "str" else render(v)) for k, v in kvs) or "{}"
+    return case
+
+
 def gen_x(rng):
+    r = rng.random()
+    if r < 0.3:
+        return gen_x_multi(rng)
     r = rng.random()
     if r < 0.25:
         # a modelled type through the argv / string channel, now and then with a list append
@@ -417,7 +529,7 @@ def gen_x(rng):
         t, v = ["set", leaf], L([v, v])
         if leaf[0] in ("data", "sub"):
             t = ["list", leaf]
-    ch = rng.choice(["object", "object", "args", "string"])
+    ch = "object" if has_obj(v) else rng.choice(["object", "object", "args", "string"])
     case = {"kind": "x", "decls": [{"key": "k", "ty": t, "default": NONE}]}
     if ch == "object":
         case.update(channel="object", input=D([(S("k"), v)]))
@@ -441,6 +553,32 @@ def curated_x():
         {"kind": "x", "decls": [{"key": "k", "ty": ["list", INT], "default": L([I(1), I(2)])}], "channel": "args",
          "input": ["--k+=[3, 4]", "--k+=5"]},
         {"kind": "x", "decls": [{"key": "k", "ty": ["list", INT], "default": NONE}], "channel": "string", "input": "k+: [3]"},
+        # the dump leg: durations of exactly one day (str(timedelta) writes the singular "1 day, ..."), other registered types
+        one_x(["timedelta"], "args", ["--k=30:00:00"]), one_x(["timedelta"], "args", ["--k=24:00:00"]),
+        one_x(["union", [["timedelta"], NON]], "args", ["--k=26:00:00"]),
+        one_x(["list", ["timedelta"]], "string", "k:\n- '12:00:00'\n- '24:00:00'\n"),
+        one_x(["timedelta"], "object", D([(S("k"), O("timedelta", "86460"))])),
+        one_x(["timedelta"], "object", D([(S("k"), O("timedelta", "-90000"))])),
+        one_x(["decimal"], "args", ["--k=1.50"]), one_x(["uuid"], "args", ["--k=12345678-1234-5678-1234-567812345678"]),
+        one_x(["range"], "args", ["--k=range(5)"]), one_x(["complex"], "object", D([(S("k"), O("complex", "(3-4j)"))])),
+        # a set is dumped in iteration order (finding set-dump-order)
+        one_x(["set", STR], "object", D([(S("k"), L([S("a"), S("b"), S("x y")]))])),
+        one_x(["set", STR], "args", ["--k=[a, '1', 'x y']"]),
+        # serialising a Union through a member the value does not belong to (finding union-dump-wrong-member)
+        one_x(["union", [["posint"], ["decimal"]]], "object", D([(S("k"), O("decimal", "0.1"))])),
+        one_x(["union", [COLOR, ["range"]]], "string", "k: 'range(1, 5)'"),
+        one_x(["union", [BOOL, ["enum", "Sz", ["s", "m", "true"]]]], "object", D([(S("k"), ["enum", "Sz", "true"])])),
+        # subclass-typed options with defaults under prefix-related names, the later one switched to another class
+        {"kind": "x", "decls": [{"key": "model", "ty": ["sub", "Net"], "default": ["lazy", "ConvNet", [["kernel", I(5)]]]},
+                                {"key": "model_ema", "ty": ["sub", "Net"], "default": ["lazy", "ConvNet", [["kernel", I(7)]]]},
+                                {"key": "epochs", "ty": INT, "default": I(1)}],
+         "channel": "args", "input": ["--model=MlpNet", "--model_ema=MlpNet", "--model_ema.dropout=0.5"]},
+        {"kind": "x", "decls": [{"key": "model", "ty": ["sub", "Net"], "default": ["lazy", "ConvNet", [["kernel", I(5)]]]},
+                                {"key": "model_ema", "ty": ["sub", "Net"], "default": ["lazy", "ConvNet", [["kernel", I(7)]]]}],
+         "channel": "args", "input": ["--model_ema=MlpNet", "--model_ema.hidden=16", "--model_ema.width=4"]},
+        {"kind": "x", "decls": [{"key": "opt", "ty": ["sub", "Opt"], "default": ["lazy", "Sgd", [["momentum", F(0.9)]]]},
+                                {"key": "optim", "ty": ["sub", "Opt"], "default": ["lazy", "Sgd", [["momentum", F(0.5)]]]}],
+         "channel": "object", "input": D([(S("optim"), D([(S("class_path"), S("Adam")), (S("init_args"), D([(S("eps"), F(0.25))]))]))])},
     ]
 
 
@@ -595,7 +733,10 @@ def term(case, obs):
         return "NsCase %s (%s) %s %s %s %s" % (p, g_val(obs["seen"]["obj"]), g_oracle(obs["oracle"]), g_outcome(obs["first"]),
                                              g_bool(obs["valid"]), again)
     sk = g_list([g_xty(d["ty"]) for d in case["decls"]], "xty")
-    return "XCase %s %s %s %s" % (sk, g_outcome(obs["first"]), g_bool(obs["valid"]), again)
+    dl = obs.get("dump") or {"reparsed": ["rejected"], "text1": None, "text2": None}
+    gt = lambda t: "None" if t is None else "(Some %s)" % g_str(t)  # noqa: E731
+    return "XCase %s %s %s %s %s %s %s" % (sk, g_outcome(obs["first"]), g_bool(obs["valid"]), again, g_outcome(dl["reparsed"]),
+                                          gt(dl["text1"]), gt(dl["text2"]))
 
 
 # ---------------------------------------------------------------------------------------------------------------------
@@ -627,8 +768,11 @@ def py_ty(t):
         return "Set[%s]" % py_ty(t[1])
     if k == "path":
         return "Path_%s" % t[1]
+    if k == "sub" and len(t) > 1:
+        return "c10_classes." + t[1]
     return {"pathlib": "pathlib.Path", "timedelta": "datetime.timedelta", "posint": "PositiveInt", "unit": "ClosedUnitInterval",
-            "nnfloat": "NonNegativeFloat", "email": "Email", "sub": "calendar.Calendar"}.get(k, "dataclass " + str(t[1:]))
+            "nnfloat": "NonNegativeFloat", "email": "Email", "sub": "calendar.Calendar", "decimal": "decimal.Decimal",
+            "uuid": "uuid.UUID"}.get(k, "dataclass " + str(t[1:]))
 
 
 def py_val(v):
@@ -649,6 +793,10 @@ def py_val(v):
         return "{" + ", ".join("%s: %s" % (py_val(a), py_val(b)) for a, b in v[1]) + "}"
     if k == "enum":
         return "%s.%s" % (v[1], v[2])
+    if k == "obj":
+        return "%s(%s)" % (v[1], v[2])
+    if k == "lazy":
+        return "lazy_instance(%s%s)" % (v[1], "".join(", %s=%s" % (a, py_val(b)) for a, b in v[2]))
     return "<%s %s>" % (v[1], v[2])
 
 
@@ -694,6 +842,9 @@ def category(case, obs):
     if what == "ok":
         same = all(a == obs["first"] for a in obs["again"]) and obs["valid"]
         what = "accepted/fixed-point" if same else "accepted/NOT-fixed-point"
+        if obs.get("dump"):
+            dl = obs["dump"]
+            what += "/dump-stable" if dl["reparsed"] == obs["first"] and dl["text1"] is not None and dl["text1"] == dl["text2"] else "/dump-UNSTABLE"
     if case["kind"] == "ns":
         return "ns %d keys [%s] %s" % (len(case["decls"]), kinds, what)
     return "x %s [%s] %s" % (case["channel"], kinds, what)
@@ -714,6 +865,11 @@ def describe(case, obs):
     d["cfg (values in declaration order)"] = py_outcome(obs["first"])
     d["validate(cfg)"] = "passes" if obs["valid"] else "FAILS: " + obs.get("why", "")
     d["parse_object(cfg.clone()), parse_object(cfg.clone().as_dict())"] = [py_outcome(a) for a in obs["again"]]
+    if obs.get("dump"):
+        dl = obs["dump"]
+        d["dump(cfg)"] = dl["text1"]
+        d["parse_string(dump(cfg))"] = py_outcome(dl["reparsed"])
+        d["dump(parse_string(dump(cfg)))"] = dl["text2"] if dl["text2"] is not None else dl.get("why2", "not reached")
     return d
 
 
